@@ -4,6 +4,7 @@ import (
 	"fmt"
 	"reflect"
 	"strings"
+	"time"
 
 	j "github.com/mfcochauxlaberge/jsonapi"
 
@@ -49,6 +50,7 @@ func c17Ops(k Kind) []c17Op {
 		c17Op{"many", func() any { return []string{} }, "[]"},
 		c17Op{"id", func() any { return "i1" }, `"i1"`},
 		c17Op{"id", func() any { return "" }, `""`},
+		c17Op{"", nil, "read everything"},
 	)
 	return ops
 }
@@ -60,6 +62,47 @@ type c17Sys struct {
 	wrap  j.Resource
 	model map[string]any
 	ops   []c17Op
+	// the value last handed to Set, per implementation and field
+	cur  [2]map[string]any
+	last string
+}
+
+// c17Scribble overwrites, in place, a value the caller handed to Set earlier
+// and has since replaced: the caller owns it again.
+func c17Scribble(v any) {
+	switch w := v.(type) {
+	case []byte:
+		for i := range w {
+			w[i] ^= 0xA5
+		}
+		return
+	case []string:
+		for i := range w {
+			w[i] += "~scribbled"
+		}
+		return
+	}
+	rv := reflect.ValueOf(v)
+	if !rv.IsValid() || rv.Kind() != reflect.Ptr || rv.IsNil() {
+		return
+	}
+	e := rv.Elem()
+	switch e.Kind() {
+	case reflect.String:
+		e.SetString(e.String() + "~scribbled")
+	case reflect.Bool:
+		e.SetBool(!e.Bool())
+	case reflect.Int, reflect.Int8, reflect.Int16, reflect.Int32, reflect.Int64:
+		e.SetInt(e.Int() ^ 0x55)
+	case reflect.Uint, reflect.Uint8, reflect.Uint16, reflect.Uint32, reflect.Uint64:
+		e.SetUint(e.Uint() ^ 0x55)
+	case reflect.Slice:
+		e.Set(reflect.ValueOf([]byte{9, 9, 9}))
+	case reflect.Struct:
+		if t, ok := e.Interface().(time.Time); ok {
+			e.Set(reflect.ValueOf(t.Add(12345 * time.Hour)))
+		}
+	}
 }
 
 func c17New(k Kind) *c17Sys {
@@ -127,6 +170,13 @@ func c17Observe(impl string, k Kind, r j.Resource, model map[string]any, d TypeD
 
 func (y *c17Sys) Apply(opi int) (fails []mc.Violation, fatal bool) {
 	o := y.ops[opi]
+	if o.field == "" {
+		// "read everything": every observable of both implementations, result ignored here
+		c17Observe("soft", y.k, y.soft, y.model, y.d)
+		c17Observe("wrap", y.k, y.wrap, y.model, y.d)
+		y.last = "read everything"
+		return nil, false
+	}
 	desc := fmt.Sprintf("Set(%q, %s) on kind %s", o.field, o.show, y.k)
 	fail := func(what, msg string) {
 		fails = append(fails, mc.Violation{Sig: fmt.Sprintf("C17:set:%s:%s", y.k, what), Msg: desc + ": " + msg})
@@ -135,10 +185,21 @@ func (y *c17Sys) Apply(opi int) (fails []mc.Violation, fatal bool) {
 		name string
 		r    j.Resource
 	}{{"soft", y.soft}, {"wrap", y.wrap}} {
-		if p := Try(func() { im.r.Set(o.field, o.val()) }); p != "" {
+		given := o.val()
+		if p := Try(func() { im.r.Set(o.field, given) }); p != "" {
 			fail(im.name+"-set-panic", im.name+": Set panicked: "+p)
 			fatal = true
 		}
+		k := 0
+		if im.name == "wrap" {
+			k = 1
+		}
+		if y.cur[k] == nil {
+			y.cur[k] = map[string]any{}
+		}
+		// "the value most recently set": what was set before is the caller's again
+		c17Scribble(y.cur[k][o.field])
+		y.cur[k][o.field] = given
 	}
 	if fatal {
 		return
@@ -148,12 +209,20 @@ func (y *c17Sys) Apply(opi int) (fails []mc.Violation, fatal bool) {
 		v = nil
 	}
 	y.model[o.field] = v
+	y.last = desc
+	return
+}
+
+// Final: both implementations are read once, after the last Set of the history
+// (reading is an operation of its own, so histories with reads between the
+// Sets are explored too).
+func (y *c17Sys) Final() (fails []mc.Violation, fatal bool) {
 	for _, im := range []struct {
 		name string
 		r    j.Resource
 	}{{"soft", y.soft}, {"wrap", y.wrap}} {
 		if what, msg := c17Observe(im.name, y.k, im.r, y.model, y.d); what != "" {
-			fail(im.name+"-"+what, msg)
+			fails = append(fails, mc.Violation{Sig: fmt.Sprintf("C17:set:%s:%s", y.k, im.name+"-"+what), Msg: y.last + ": " + msg})
 		}
 	}
 	return
@@ -231,7 +300,7 @@ func c17Pool() []c17Variant {
 	str, pstr, pint := Kind{j.AttrTypeString, false}, Kind{j.AttrTypeString, true}, Kind{j.AttrTypeInt, true}
 	pbytes := Kind{j.AttrTypeBytes, true}
 	base := func() TypeD {
-		return TypeD{Name: "t", Attrs: []AttrD{{"k", str}, {"n", pint}, {"pb", pbytes}}, Rels: []RelD{{"one", true, "u", ""}, {"many", false, "u", ""}}}
+		return TypeD{Name: "t", Attrs: []AttrD{{"k", str}, {"n", pint}, {"pb", pbytes}, {"w", Kind{j.AttrTypeTime, false}}, {"pw", Kind{j.AttrTypeTime, true}}}, Rels: []RelD{{"one", true, "u", ""}, {"many", false, "u", ""}}}
 	}
 	fill := func(r j.Resource, kname string) j.Resource {
 		r.Set("id", "i1")
@@ -273,6 +342,10 @@ func c17Pool() []c17Variant {
 		v("pointer-to-nil-bytes", base, func(r j.Resource) { var b []byte; r.Set("pb", &b) }),
 		v("pointer-to-empty-bytes", base, func(r j.Resource) { b := []byte{}; r.Set("pb", &b) }),
 		v("attr-kind", func() TypeD { d := base(); d.Attrs[0].K = pstr; return d }, func(r j.Resource) { r.Set("k", Ptr("v")) }),
+		v("time-zoned", base, func(r j.Resource) { r.Set("w", TimeAlph[4]); r.Set("pw", Ptr(TimeAlph[4])) }),
+		v("time-same-instant-utc", base, func(r j.Resource) { r.Set("w", TimeAlph[4].UTC()); r.Set("pw", Ptr(TimeAlph[4].UTC())) }),
+		v("time-later", base, func(r j.Resource) { r.Set("w", TimeAlph[4].Add(1)); r.Set("pw", Ptr(TimeAlph[4].Add(1))) }),
+		v("time-nullable-only", base, func(r j.Resource) { r.Set("pw", Ptr(TimeAlph[4].UTC())) }),
 		v("rel-renamed", func() TypeD { d := base(); d.Rels[0].Name = "one2"; return d }, nil),
 		v("to-one-value", base, func(r j.Resource) { r.Set("one", "y") }),
 		v("to-many-value", base, func(r j.Resource) { r.Set("many", []string{"a", "c"}) }),
@@ -309,7 +382,7 @@ func diffAspects(a, b j.Resource) []string {
 			continue
 		}
 		x, y := a.Get(n), b.Get(n)
-		if IsNilVal(x) != IsNilVal(y) || (!IsNilVal(x) && (reflect.TypeOf(x) != reflect.TypeOf(y) || !SameAttrValue(x, y))) {
+		if IsNilVal(x) != IsNilVal(y) || (!IsNilVal(x) && (reflect.TypeOf(x) != reflect.TypeOf(y) || !SameAttrValue(x, y) || c17ZoneDiffers(x, y))) {
 			out = append(out, "attr-values")
 			break
 		}
@@ -339,6 +412,14 @@ func diffAspects(a, b j.Resource) []string {
 		}
 	}
 	return out
+}
+
+// two readings of one instant in different zones are different field values
+// (they print, marshal and compare with == differently)
+func c17ZoneDiffers(a, b any) bool {
+	ta, ok1 := Deref(a).(time.Time)
+	tb, ok2 := Deref(b).(time.Time)
+	return ok1 && ok2 && ta.Format(time.RFC3339Nano) != tb.Format(time.RFC3339Nano)
 }
 
 func c17Equal(x *mc.Exec) {
@@ -390,8 +471,8 @@ func c17Equal(x *mc.Exec) {
 func init() {
 	Register(&Prop{
 		ID: "C17",
-		Rule: "Engine B: for each of the 28 kinds, breadth-first search over ALL Set histories (depth <= 4 quick / 8 thorough) on a soft resource and a struct-wrapped resource of the same type driven side by side (3 values of the kind + typed nil + untyped nil for nullable kinds, 2 values each for a string attribute, to-one, to-many and id), de-duplicated by deep snapshot; after every step every observable (GetType().Name, Attrs, Rels, attribute definition, Get of every field and id) of both implementations is compared with a map model. Engine A: 28 kinds x 5 constructors of fresh resources (Type.New soft/struct, SoftResource.New, Wrapper.New, Wrapper.New after Set); all ordered pairs of a pool of 18 resource variants x {soft,wrapped} that differ from a base in exactly one aspect, for reflexivity, symmetry and 'never equal when different'",
-		Assumptions: []string{"an unset byte string reads as empty or nil, a nil nullable as typed or untyped nil (as stated)"},
+		Rule: "Engine B: for each of the 28 kinds, breadth-first search over ALL Set histories (depth <= 4 quick / 8 thorough) on a soft resource and a struct-wrapped resource of the same type driven side by side (3 values of the kind + typed nil + untyped nil for nullable kinds, 2 values each for a string attribute, to-one, to-many and id), de-duplicated by deep snapshot; after every Set the caller overwrites in place the value it handed to the previous Set of that field; nothing is read between the operations of a history ('read everything' is an operation of its own); after the last step every observable (GetType().Name, Attrs, Rels, attribute definition, Get of every field and id) of both implementations is compared with a map model. Engine A: 28 kinds x 5 constructors of fresh resources (Type.New soft/struct, SoftResource.New, Wrapper.New, Wrapper.New after Set); all ordered pairs of a pool of 29 resource variants (incl. one instant read in two zones) x {soft,wrapped} that differ from a base in exactly one aspect, for reflexivity, symmetry and 'never equal when different'",
+		Assumptions: []string{"an unset byte string reads as empty or nil, a nil nullable as typed or untyped nil (as stated)", "one instant read in two zones counts as two different field values (they print, marshal and compare with == differently)", "a value handed to an earlier Set and since replaced belongs to the caller again"},
 		Harnesses: []Harness{
 			{Name: "C17/set-histories",
 				Custom: func(c *Ctx) {
